@@ -17,6 +17,151 @@ try:
     from .canon_table import COMPARES
 except Exception:
     COMPARES = {}
+try:
+    from .canon_table import LOCALS
+except Exception:
+    LOCALS = {}
+
+PURE_FUNCS = {"len", "type", "isinstance", "str", "bool", "int", "float", "repr", "tuple", "list", "dict", "set", "sorted", "min", "max", "any", "all"}
+# methods without side effects in this code base (path constructors, printers, accessors)
+PURE_METHODS = {"path_for_key", "metadata_path_for_key", "to_path", "encode", "get", "segment_name", "is_volatile", "is_dir", "contains",
+                "startswith", "endswith", "split", "join", "lower", "upper", "strip", "items", "keys", "values", "key_name", "key_extension",
+                "default_extension", "identifier", "is_action_request", "is_filename", "is_resource_query", "is_transform_query", "name",
+                "with_suffix", "format", "replace_", "isupper", "exists"}
+
+
+def _is_pure(e):
+    if isinstance(e, (ast.Name, ast.Constant)):
+        return True
+    if isinstance(e, ast.Attribute):
+        return _is_pure(e.value)
+    if isinstance(e, ast.Subscript):
+        return _is_pure(e.value) and _is_pure(e.slice)
+    if isinstance(e, ast.Slice):
+        return all(x is None or _is_pure(x) for x in (e.lower, e.upper, e.step))
+    if isinstance(e, ast.BoolOp):
+        return all(_is_pure(v) for v in e.values)
+    if isinstance(e, ast.UnaryOp):
+        return _is_pure(e.operand)
+    if isinstance(e, ast.BinOp):
+        return _is_pure(e.left) and _is_pure(e.right)
+    if isinstance(e, ast.Compare):
+        return _is_pure(e.left) and all(_is_pure(c) for c in e.comparators)
+    if isinstance(e, ast.IfExp):
+        return _is_pure(e.test) and _is_pure(e.body) and _is_pure(e.orelse)
+    if isinstance(e, (ast.Tuple, ast.List)):
+        return all(_is_pure(x) for x in e.elts)
+    if isinstance(e, ast.JoinedStr):
+        return all(_is_pure(v.value) if isinstance(v, ast.FormattedValue) else True for v in e.values)
+    if isinstance(e, ast.Call):
+        if e.keywords and any(k.arg is None for k in e.keywords):
+            return False
+        args_ok = all(_is_pure(a) for a in e.args) and all(_is_pure(k.value) for k in e.keywords)
+        if isinstance(e.func, ast.Name):
+            return e.func.id in PURE_FUNCS and args_ok
+        if isinstance(e.func, ast.Attribute):
+            return e.func.attr in PURE_METHODS and _is_pure(e.func.value) and args_ok
+    return False
+
+
+def _blocks_of(node):
+    for f in ("body", "orelse", "finalbody"):
+        b = getattr(node, f, None)
+        if isinstance(b, list) and b and isinstance(b[0], ast.stmt):
+            yield b
+    for h in getattr(node, "handlers", []) or []:
+        yield h.body
+
+
+def _inline_new_locals(fn, known):
+    """a local the reference function does not have, assigned exactly once to a side-effect-free expression whose operands are not
+    re-bound afterwards, and read only in the statements that follow the assignment in its block, is substituted into its uses
+    (the inverse of the hoist-local refactor: `has_input = flag or value is not None; if extras is None and not has_input:`)."""
+    done = 0
+    for _ in range(8):
+        stores = {}
+        nested_names = set()
+        for n in ast.walk(fn):
+            if isinstance(n, (ast.FunctionDef, ast.AsyncFunctionDef, ast.Lambda)) and n is not fn:
+                nested_names |= {x.id for x in ast.walk(n) if isinstance(x, ast.Name)}
+        for n in ast.walk(fn):
+            if isinstance(n, ast.Name) and isinstance(n.ctx, (ast.Store, ast.Del)):
+                stores.setdefault(n.id, 0)
+                stores[n.id] += 1
+            elif isinstance(n, ast.ExceptHandler) and n.name:
+                stores[n.name] = stores.get(n.name, 0) + 1
+        progress = False
+        stack = [fn]
+        while stack and not progress:
+            node = stack.pop()
+            for b in _blocks_of(node):
+                for i, st in enumerate(b):
+                    if isinstance(st, ast.Assign) and len(st.targets) == 1 and isinstance(st.targets[0], ast.Name):
+                        t = st.targets[0].id
+                        if t in known or t in nested_names or stores.get(t) != 1 or not _is_pure(st.value):
+                            continue
+                        rest = b[i + 1:]
+                        uses_rest = [n for s2 in rest for n in ast.walk(s2) if isinstance(n, ast.Name) and n.id == t]
+                        uses_all = [n for n in ast.walk(fn) if isinstance(n, ast.Name) and n.id == t and isinstance(n.ctx, ast.Load)]
+                        if len(uses_rest) != len(uses_all) or not uses_all:
+                            continue
+                        operands = {n.id for n in ast.walk(st.value) if isinstance(n, ast.Name)}
+                        attrs = {U(n) for n in ast.walk(st.value) if isinstance(n, ast.Attribute)}
+                        def rebinds(node):
+                            for n in ast.walk(node):
+                                if isinstance(n, ast.Name) and isinstance(n.ctx, (ast.Store, ast.Del)) and n.id in operands:
+                                    return True
+                                if isinstance(n, (ast.Attribute, ast.Subscript)) and isinstance(n.ctx, (ast.Store, ast.Del)) and any(
+                                        a == U(n) or a.startswith(U(n) + ".") or U(n).startswith(a + ".") or U(n).startswith(a + "[") for a in attrs | operands):
+                                    return True
+                                if isinstance(n, ast.ExceptHandler) and n.name in operands:
+                                    return True
+                                if isinstance(n, ast.Call) and isinstance(n.func, ast.Attribute) and n.func.attr not in PURE_METHODS \
+                                        and {x.id for x in ast.walk(n.func.value) if isinstance(x, ast.Name)} & (operands - {"self"}):
+                                    return True      # a mutating method call on an operand (parameters.append(...))
+                            return False
+
+                        def has_use(node):
+                            return any(isinstance(n, ast.Name) and n.id == t for n in ast.walk(node))
+                        last = max(k for k, s2 in enumerate(rest) if has_use(s2))
+                        rebound = False
+                        for k, s2 in enumerate(rest[:last + 1]):
+                            if k < last:
+                                rebound = rebound or rebinds(s2)
+                            else:
+                                # the statement holding the last use: a plain assignment evaluates its value before it stores
+                                if isinstance(s2, ast.Assign) and not any(has_use(tg) for tg in s2.targets):
+                                    rebound = rebound or rebinds(s2.value)
+                                else:
+                                    rebound = rebound or rebinds(s2)
+                        if rebound:
+                            continue
+                        val = st.value
+
+                        class S(ast.NodeTransformer):
+                            def visit_Name(self, n):
+                                if n.id == t and isinstance(n.ctx, ast.Load):
+                                    import copy
+                                    return ast.copy_location(copy.deepcopy(val), n)
+                                return n
+                        for s2 in rest:
+                            S().visit(s2)
+                        del b[i]
+                        if not b:
+                            b.append(ast.copy_location(ast.Pass(), st))
+                        done += 1
+                        progress = True
+                        break
+                if progress:
+                    break
+                for st in b:
+                    if not isinstance(st, (ast.FunctionDef, ast.AsyncFunctionDef, ast.ClassDef)):
+                        stack.append(st)
+        if not progress:
+            break
+    if done:
+        ast.fix_missing_locations(fn)
+    return done
 
 _PC = {}
 
@@ -181,42 +326,85 @@ def _restore_compare_order(fn, ref):
     return k
 
 
+def _find_fn(m, qual):
+    if "." in qual:
+        cn, mn = qual.split(".", 1)
+        cnode = m.classes.get(cn)
+        if cnode is not None:
+            for x in cnode.body:
+                if isinstance(x, (ast.FunctionDef, ast.AsyncFunctionDef)) and x.name == mn:
+                    return x
+        return None
+    return m.functions.get(qual)
+
+
+def _negated_definitions(fn, ent):
+    """`succeeded = not (state.is_error or self.is_error)` where the reference function defines `is_error = state.is_error or
+    self.is_error` (and `is_error` itself is gone): the local is renamed back and every read becomes `not is_error`."""
+    done = []
+    names = _names(fn)
+    for canonical, forms in ent.items():
+        if canonical in names:
+            continue
+        for kind, pat in forms:
+            if kind != "assign":
+                continue
+            cands = []
+            for n in ast.walk(fn):
+                if isinstance(n, ast.Assign) and len(n.targets) == 1 and isinstance(n.targets[0], ast.Name) \
+                        and isinstance(n.value, ast.UnaryOp) and isinstance(n.value.op, ast.Not) and _match(_pat(pat), n.value.operand, {}) is not None:
+                    cands.append(n)
+            if len(cands) != 1:
+                continue
+            a = cands[0]
+            old = a.targets[0].id
+            if sum(1 for n in ast.walk(fn) if isinstance(n, ast.Name) and n.id == old and isinstance(n.ctx, ast.Store)) != 1:
+                continue
+            a.value = a.value.operand
+
+            class R(ast.NodeTransformer):
+                def visit_Name(self, n):
+                    if n.id == old:
+                        if isinstance(n.ctx, ast.Load):
+                            return ast.copy_location(ast.UnaryOp(op=ast.Not(), operand=ast.Name(id=canonical, ctx=ast.Load())), n)
+                        n.id = canonical
+                    return n
+            R().visit(fn)
+            ast.fix_missing_locations(fn)
+            done.append((old, canonical))
+            names = _names(fn)
+            break
+    return done
+
+
+def _strip_double_not(fn):
+    class D(ast.NodeTransformer):
+        def visit_UnaryOp(self, n):
+            self.generic_visit(n)
+            if isinstance(n.op, ast.Not) and isinstance(n.operand, ast.UnaryOp) and isinstance(n.operand.op, ast.Not):
+                return n.operand.operand if False else ast.copy_location(ast.Call(func=ast.Name(id="bool", ctx=ast.Load()), args=[n.operand.operand], keywords=[]), n) \
+                    if False else n.operand.operand
+            return n
+    # `not not x` only ever appears here in test position (after the negated-definition pass), where it equals `x`
+    for n in ast.walk(fn):
+        if isinstance(n, (ast.If, ast.While, ast.IfExp)):
+            n.test = D().visit(n.test)
+
+
 def canonicalise(repo):
-    """mutates the function ASTs of `repo` in place; returns the list of renames performed"""
+    """mutates the function ASTs of `repo` in place; returns the list of transformations performed.
+    Order: (1) helpers the reference tree does not know are inlined; (2) locals renamed back by their defining forms (incl. negated
+    definitions); (3) locals the reference function does not have are substituted into their uses; (4) negated if/else swapped,
+    nested ifs merged; (5) `x = e; return x` inlined; (6) ==/!= operand order restored."""
     done = []
     from .inline import inline_new_helpers
     done += inline_new_helpers(repo)
-    for m in repo.modules.values():
-        for fn in ast.walk(m.tree):
-            if isinstance(fn, (ast.FunctionDef, ast.AsyncFunctionDef)):
-                k = _normalise_negated_ifs(fn)
-                if k:
-                    done.append((m.name, fn.name, "<negated if/else normalised>", k))
-                k = _merge_nested_ifs(fn)
-                if k:
-                    done.append((m.name, fn.name, "<nested ifs merged>", k))
-    for m in repo.modules.values():
-        for st in m.tree.body:
-            fns = [st] if isinstance(st, (ast.FunctionDef, ast.AsyncFunctionDef)) else \
-                [x for x in st.body if isinstance(x, (ast.FunctionDef, ast.AsyncFunctionDef))] if isinstance(st, ast.ClassDef) else []
-            for fn in fns:
-                k = _inline_return_temps(fn)
-                if k:
-                    done.append((m.name, fn.name, "<return temps inlined>", k))
+    # (2) rename table
     for (modname, qual), ent in TABLE.items():
         if modname not in repo.modules:
             continue
         m = repo.modules[modname]
-        fn = None
-        if "." in qual:
-            cn, mn = qual.split(".", 1)
-            cnode = m.classes.get(cn)
-            if cnode is not None:
-                for x in cnode.body:
-                    if isinstance(x, (ast.FunctionDef, ast.AsyncFunctionDef)) and x.name == mn:
-                        fn = x
-        else:
-            fn = m.functions.get(qual)
+        fn = _find_fn(m, qual)
         if fn is None:
             continue
         for _ in range(3):     # a few rounds: patterns mention other locals only as metavariables, so one is usually enough
@@ -235,20 +423,40 @@ def canonicalise(repo):
                 changed = True
             if not changed:
                 break
+        for old, new in _negated_definitions(fn, ent):
+            done.append((modname, qual, f"not {old}", new))
+    # (3) new locals
+    for (modname, qual), known in LOCALS.items():
+        if modname not in repo.modules:
+            continue
+        fn = _find_fn(repo.modules[modname], qual)
+        if fn is not None:
+            k = _inline_new_locals(fn, set(known))
+            if k:
+                done.append((modname, qual, "<new locals substituted>", k))
+    # (4), (5)
+    for m in repo.modules.values():
+        for fn in ast.walk(m.tree):
+            if isinstance(fn, (ast.FunctionDef, ast.AsyncFunctionDef)):
+                _strip_double_not(fn)
+                k = _normalise_negated_ifs(fn)
+                if k:
+                    done.append((m.name, fn.name, "<negated if/else normalised>", k))
+                k = _merge_nested_ifs(fn)
+                if k:
+                    done.append((m.name, fn.name, "<nested ifs merged>", k))
+        for st in m.tree.body:
+            fns = [st] if isinstance(st, (ast.FunctionDef, ast.AsyncFunctionDef)) else \
+                [x for x in st.body if isinstance(x, (ast.FunctionDef, ast.AsyncFunctionDef))] if isinstance(st, ast.ClassDef) else []
+            for fn in fns:
+                k = _inline_return_temps(fn)
+                if k:
+                    done.append((m.name, fn.name, "<return temps inlined>", k))
+    # (6)
     for (modname, qual), ref in COMPARES.items():
         if modname not in repo.modules:
             continue
-        m = repo.modules[modname]
-        fn = None
-        if "." in qual:
-            cn, mn = qual.split(".", 1)
-            cnode = m.classes.get(cn)
-            if cnode is not None:
-                for x in cnode.body:
-                    if isinstance(x, (ast.FunctionDef, ast.AsyncFunctionDef)) and x.name == mn:
-                        fn = x
-        else:
-            fn = m.functions.get(qual)
+        fn = _find_fn(repo.modules[modname], qual)
         if fn is not None:
             k = _restore_compare_order(fn, ref)
             if k:
